@@ -439,15 +439,15 @@ Proof.
          end.
     all: try (rewrite FC, F; cbn; split; assumption).
     + (* user code *)
-      assert (C1 : c1 = [MQuitStore]) by (apply K3; right; left; assumption).
+      assert (C1 : c1 = [MQuitStore]) by (apply K3; right; left; reflexivity).
       destruct Q5 as [[_ NQ]|[X|X]]; try congruence.
-      rewrite AL by (try assumption; match goal with H : eo e = _ |- _ => rewrite H; reflexivity end).
+      rewrite AL by (try reflexivity; assumption).
       rewrite FC, F. cbn. rewrite U1. split; [reflexivity|exact U2].
     + (* the destructor's quit() *)
       rewrite F in N. cbn in N. injection N as ->. rewrite FC, F. cbn.
       split; [exact U1|]. destruct Q5 as [[C1 NQ]|[C1|C1]]; try discriminate.
       * (* the store: the loop is alive *)
-        rewrite AL by (try assumption; match goal with H : eo e = _ |- _ => rewrite H; reflexivity end).
+        rewrite AL by (try reflexivity; assumption).
         cbn. rewrite orb_false_r. intros X. specialize (U2 X). congruence.
       * (* the wake-up half *)
         injection C1 as -> ->. intros _. cbn in E. destruct (qwake sh false); injection E as <- <-; reflexivity.
